@@ -143,6 +143,24 @@ func (g *Gen) replayTicket() Op {
 		}
 	}
 	g.stats["ticket_replayed_"+o.Kind]++
+	// an altered copy of an ACCEPTED ticket: same header and signature (the chain has verified them before), payload changed
+	// after signing (an extra claim, or a later expiry).  It must be refused like any other forgery.
+	if o.Kind != "VOTE" && o.Tk.Signer == int64(g.c.LeaderKey()) && g.chance(0.35) {
+		forged := Ticket{Signer: -1, Exp: o.Tk.Exp, Forge: 3}
+		if g.chance(0.5) {
+			forged.Forge = 10
+		}
+		g.stats["ticket_altered_copy_of_accepted"]++
+		if o.Kind == "DEP" {
+			d := g.genDeposit()
+			if d.Kind == "DEP" {
+				d.Tk, d.Ky, d.Depositor, d.Signer = forged, o.Ky, o.Depositor, o.Signer
+				return d
+			}
+		}
+		o.Tk = forged
+		return o
+	}
 	switch o.Kind {
 	case "VOTE":
 		n := int64(len(g.vault()))
